@@ -154,7 +154,9 @@ def main():
             props = claimed if all_props else [p for p in [meta["property"]] + meta.get("also_check", []) if p in claimed]
             res = {}
             for p in props:
-                rr = sh(["python3", os.path.join(HERE, "check.py"), "--property", p, "--tier", "quick"], cwd=VERIF)
+                # the patch is applied in /repo itself here: evidence and replays of the PATCHED tree go to a scratch directory
+                rr = sh(["python3", os.path.join(HERE, "check.py"), "--property", p, "--tier", "quick"], cwd=VERIF,
+                        env=dict(os.environ, VERIF_OUT="/tmp/verif_out_seedeval_inplace"))
                 out = rr.stdout.decode()
                 vio = [l for l in out.split("\n") if l.startswith("VIOLATION")]
                 how = None
